@@ -515,8 +515,8 @@ class ElectionState(_SynchronizedState):
                 # the Slave waits for the Master to transition
                 # NOTE: the Master may already be past DISTRIBUTION if the election only took place locally
                 #       (e.g. the Master has been lost and recovered by the local Supvisors instance only)
-                if self.state_modes.master_state in [SupvisorsStates.DISTRIBUTION, SupvisorsStates.OPERATION,
-                                                     SupvisorsStates.CONCILIATION]:
+                # NOTE: a Master in CONCILIATION is waited (no transition from DISTRIBUTION to CONCILIATION)
+                if self.state_modes.master_state in [SupvisorsStates.DISTRIBUTION, SupvisorsStates.OPERATION]:
                     return SupvisorsStates.DISTRIBUTION
             # re-evaluate the context to possibly get a more relevant Master
             self.state_modes.select_master()
